@@ -150,6 +150,10 @@ type (
 		chReadEvent  chan struct{} // notify Read() can be called without blocking
 		chWriteEvent chan struct{} // notify Write() can be called without blocking
 
+		// deadline changes are broadcast to all blocked callers
+		rdChanged deadlineSignal // tells every blocked Read() that the read deadline changed
+		wdChanged deadlineSignal // tells every blocked Write() that the write deadline changed
+
 		// socket error handling
 		socketReadError      atomic.Value
 		socketWriteError     atomic.Value
@@ -278,6 +282,9 @@ func (s *UDPSession) Read(b []byte) (n int, err error) {
 	var c <-chan time.Time
 
 RESET_TIMER:
+	// watch for a change of the deadline before loading it, so that no change is missed
+	changed := s.rdChanged.watch()
+
 	// deadline for current reading operation
 	if trd, ok := s.rd.Load().(time.Time); ok && !trd.IsZero() {
 		if timeout == nil {
@@ -360,6 +367,16 @@ RESET_TIMER:
 				}
 			}
 			goto RESET_TIMER
+		case <-changed:
+			if timeout != nil {
+				if !timeout.Stop() {
+					select {
+					case <-timeout.C:
+					default:
+					}
+				}
+			}
+			goto RESET_TIMER
 		case <-c:
 			if trd, ok := s.rd.Load().(time.Time); !ok || trd.IsZero() || time.Now().Before(trd) {
 				goto RESET_TIMER // the deadline was replaced after this timer was armed
@@ -382,6 +399,9 @@ func (s *UDPSession) WriteBuffers(v [][]byte) (n int, err error) {
 	var c <-chan time.Time
 
 RESET_TIMER:
+	// watch for a change of the deadline before loading it, so that no change is missed
+	changed := s.wdChanged.watch()
+
 	if twd, ok := s.wd.Load().(time.Time); ok && !twd.IsZero() {
 		if timeout == nil {
 			timeout = time.NewTimer(time.Until(twd))
@@ -455,6 +475,16 @@ RESET_TIMER:
 				}
 			}
 			goto RESET_TIMER
+		case <-changed:
+			if timeout != nil {
+				if !timeout.Stop() {
+					select {
+					case <-timeout.C:
+					default:
+					}
+				}
+			}
+			goto RESET_TIMER
 		case <-c:
 			if twd, ok := s.wd.Load().(time.Time); !ok || twd.IsZero() || time.Now().Before(twd) {
 				goto RESET_TIMER // the deadline was replaced after this timer was armed
@@ -518,22 +548,22 @@ func (s *UDPSession) RemoteAddr() net.Addr { return s.remote }
 func (s *UDPSession) SetDeadline(t time.Time) error {
 	s.rd.Store(t)
 	s.wd.Store(t)
-	s.notifyReadEvent()
-	s.notifyWriteEvent()
+	s.rdChanged.broadcast()
+	s.wdChanged.broadcast()
 	return nil
 }
 
 // SetReadDeadline implements the Conn SetReadDeadline method.
 func (s *UDPSession) SetReadDeadline(t time.Time) error {
 	s.rd.Store(t)
-	s.notifyReadEvent()
+	s.rdChanged.broadcast()
 	return nil
 }
 
 // SetWriteDeadline implements the Conn SetWriteDeadline method.
 func (s *UDPSession) SetWriteDeadline(t time.Time) error {
 	s.wd.Store(t)
-	s.notifyWriteEvent()
+	s.wdChanged.broadcast()
 	return nil
 }
 
@@ -981,6 +1011,35 @@ func (s *UDPSession) notifyWriteEvent() {
 	}
 }
 
+// deadlineSignal wakes every goroutine that waits on a deadline when the deadline is changed.
+// A one-slot channel wakes a single waiter only; closing a channel wakes them all.
+// The zero value is ready to use.
+type deadlineSignal struct {
+	mu sync.Mutex
+	ch chan struct{} // closed by the next broadcast; nil until somebody watches
+}
+
+// watch returns a channel that is closed by the next broadcast. A waiter must call it
+// before it loads the deadline: a change that follows the load then closes the channel.
+func (d *deadlineSignal) watch() <-chan struct{} {
+	d.mu.Lock()
+	defer d.mu.Unlock()
+	if d.ch == nil {
+		d.ch = make(chan struct{})
+	}
+	return d.ch
+}
+
+// broadcast wakes all the waiters that watch. It must be called after the new deadline is stored.
+func (d *deadlineSignal) broadcast() {
+	d.mu.Lock()
+	defer d.mu.Unlock()
+	if d.ch != nil {
+		close(d.ch)
+		d.ch = nil
+	}
+}
+
 func (s *UDPSession) notifyReadError(err error) {
 	s.socketReadErrorOnce.Do(func() {
 		s.socketReadError.Store(err)
@@ -1181,8 +1240,8 @@ type (
 		chSocketReadError   chan struct{}
 		socketReadErrorOnce sync.Once
 
-		rd              atomic.Value  // read deadline for Accept()
-		chDeadlineEvent chan struct{} // tells a blocked Accept() that the deadline changed
+		rd        atomic.Value   // read deadline for Accept()
+		rdChanged deadlineSignal // tells every blocked Accept() that the deadline changed
 	}
 )
 
@@ -1408,6 +1467,9 @@ func (l *Listener) AcceptKCP() (*UDPSession, error) {
 	var c <-chan time.Time
 
 RESET_TIMER:
+	// watch for a change of the deadline before loading it, so that no change is missed
+	changed := l.rdChanged.watch()
+
 	// deadline for the current accept operation
 	if tdeadline, ok := l.rd.Load().(time.Time); ok && !tdeadline.IsZero() {
 		if timeout == nil {
@@ -1424,7 +1486,7 @@ RESET_TIMER:
 	}
 
 	select {
-	case <-l.chDeadlineEvent:
+	case <-changed:
 		if timeout != nil {
 			if !timeout.Stop() {
 				select {
@@ -1458,11 +1520,7 @@ func (l *Listener) SetDeadline(t time.Time) error {
 // SetReadDeadline implements the Conn SetReadDeadline method.
 func (l *Listener) SetReadDeadline(t time.Time) error {
 	l.rd.Store(t)
-	// wake up a blocked Accept() so that it follows the new deadline
-	select {
-	case l.chDeadlineEvent <- struct{}{}:
-	default:
-	}
+	l.rdChanged.broadcast()
 	return nil
 }
 
@@ -1578,7 +1636,6 @@ func serveConn(block BlockCrypt, dataShards, parityShards int, conn net.PacketCo
 	l.parityShards = parityShards
 	l.block = block
 	l.chSocketReadError = make(chan struct{})
-	l.chDeadlineEvent = make(chan struct{}, 1)
 	go l.monitor()
 	return l, nil
 }
